@@ -16,7 +16,7 @@ func init() {
 		Prop:   "C12",
 		Run:    run,
 		Replay: replay,
-		Rule: "E1 over grouping structures with a differential oracle: one abstract structure (grouping body from an 8-item menu, optional nested uses, definition site: same module / imported module / submodule, use site: module top / container / list / case / another grouping / own augment, one refinement from a menu of 9 incl. a nested target path, an augment inside the uses, when / if-feature / status on the uses, top-level augments of the own and of an imported module, deliberate sibling clashes and inapplicable refinements) is rendered twice: with grouping/uses/refine/augment, and inlined (bodies copied in place, refinements applied textually, when/if-feature/status copied onto every introduced node). " +
+		Rule: "E1 over grouping structures with a differential oracle: one abstract structure (grouping body from an 8-item menu, optional nested uses (at the top level of the grouping or inside a container of its body), definition site: same module / imported module / submodule, use site: module top / container / list / case / another grouping / own augment, one refinement from a menu of 9 incl. a nested target path, an augment inside the uses, when / if-feature / status on the uses, top-level augments of the own and of an imported module, deliberate sibling clashes and inapplicable refinements) is rendered twice: with grouping/uses/refine/augment, and inlined (bodies copied in place, refinements applied textually, when/if-feature/status copied onto every introduced node). " +
 			"Both are compiled by the real compiler and the canonical dumps must be equal; for nodes introduced by a uses/augment carrying a when, the run-as-parent flag is checked separately and excluded from the comparison; for cross-module augments the introduced subtree is compared after substituting the augmenting module's name and namespace. Clashes and inapplicable refinements must be errors. Non-trivial = every structure (each contains a uses or an augment).",
 		Bound: map[string]string{
 			"quick":    "single-item bodies x 2 nestings x 3 definition sites x 6 use sites x one modification at a time (13)",
@@ -114,6 +114,7 @@ var mods = []string{"", "refine-default", "refine-mandatory", "refine-config", "
 type Structure struct {
 	Body   []string `json:"body"`   // names from the menu
 	Nested bool     `json:"nested"` // the grouping uses a second grouping
+	Deep   bool     `json:"deep,omitempty"` // ... from inside a container of its body (not at its top level)
 	Def    string   `json:"def"`    // same | import | submodule
 	Site   string   `json:"site"`   // top container list case grouping augment
 	Mods   []string `json:"mods"`
@@ -121,7 +122,7 @@ type Structure struct {
 }
 
 func (s Structure) String() string {
-	return fmt.Sprintf("body=%v nested=%v def=%s site=%s mods=%v clash=%v", s.Body, s.Nested, s.Def, s.Site, s.Mods, s.Clash)
+	return fmt.Sprintf("body=%v nested=%v deep=%v def=%s site=%s mods=%v clash=%v", s.Body, s.Nested, s.Deep, s.Def, s.Site, s.Mods, s.Clash)
 }
 
 type rendered struct {
@@ -223,7 +224,9 @@ func build(s Structure) (r rendered, applicable bool) {
 	for _, n := range body {
 		inl = append(inl, n.clone())
 	}
-	if s.Nested {
+	if s.Nested && s.Deep {
+		inl = append(inl, &N{Kind: "container", Name: "wrap", Kids: []*N{inner[0].clone()}})
+	} else if s.Nested {
 		inl = append(inl, inner[0].clone())
 	}
 	r.expect = "ok"
@@ -311,7 +314,9 @@ func build(s Structure) (r rendered, applicable bool) {
 	for _, n := range body {
 		gdef.WriteString(" " + n.render(tdPrefixDef))
 	}
-	if s.Nested {
+	if s.Nested && s.Deep {
+		gdef.WriteString(" container wrap { uses g2; }")
+	} else if s.Nested {
 		gdef.WriteString(" uses g2;")
 	}
 	gdef.WriteString(" }")
@@ -521,6 +526,11 @@ func run(c *engine.Ctx) {
 						structs = append(structs, Structure{Body: []string{b}, Nested: nested, Def: d, Site: site, Mods: []string{m}})
 					}
 					structs = append(structs, Structure{Body: []string{b}, Nested: nested, Def: d, Site: site, Mods: []string{""}, Clash: true})
+					if nested {
+						for _, m := range []string{"", "augment", "when", "if-feature", "refine-default"} {
+							structs = append(structs, Structure{Body: []string{b}, Nested: true, Deep: true, Def: d, Site: site, Mods: []string{m}})
+						}
+					}
 				}
 			}
 		}
